@@ -2,6 +2,7 @@ package checks
 
 import (
 	"fmt"
+	"go/constant"
 	"go/token"
 	"go/types"
 	"sort"
@@ -18,7 +19,7 @@ func init() {
 }
 
 func runC11(c *core.Ctx) {
-	c.Explanation = "Structural necessary conditions of total, deterministic linting, decided on SSA of linter/**: (lint.recursion) every recursion of the linter is structurally descending on the syntax tree or guarded by a depth/visited bound (E9: call-graph SCCs, edges classified descending/same/re-entry, guards recognised by dominance) — include expansion is the re-entry edge that needs a visited set; (lint.optnil) fields the grammar leaves nil are tested before being dereferenced (E2); (lint.hoist) in lintVCL the registration of root declarations dominates the linting of any body, and include expansion dominates the registration; (lint.maporder) no range over a map in the linter leaves its loop early (break/return inside the body), the shape that makes *which* diagnostics are produced depend on Go's randomised map order; (lint.monotone) the scope-inference fixed point only ORs bits into subroutine scope masks, so its result is independent of iteration order. A map created outside a map-range loop that is both consulted for a branch and updated inside the loop (directly or in closures created there) is reported: the outcome for one entry then depends on the entries visited before it. (lint.scopeentry) every function of linter/context that enters a subroutine scope (stores curMode from a parameter) calls the same per-subroutine reset methods as its siblings."
+	c.Explanation = "Structural necessary conditions of total, deterministic linting, decided on SSA of linter/**: (lint.recursion) every recursion of the linter is structurally descending on the syntax tree or guarded by a depth/visited bound (E9: call-graph SCCs, edges classified descending/same/re-entry, guards recognised by dominance) — include expansion is the re-entry edge that needs a visited set; (lint.optnil) fields the grammar leaves nil are tested before being dereferenced (E2); (lint.hoist) in lintVCL the registration of root declarations dominates the linting of any body, and include expansion dominates the registration; (lint.maporder) no range over a map in the linter leaves its loop early (break/return inside the body), the shape that makes *which* diagnostics are produced depend on Go's randomised map order; (lint.monotone) the scope-inference fixed point only ORs bits into subroutine scope masks, so its result is independent of iteration order. A map created outside a map-range loop that is both consulted for a branch and updated inside the loop (directly or in closures created there) is reported: the outcome for one entry then depends on the entries visited before it. (lint.fixpoint) in a `for changed { changed = false … }` loop every update of heap state reaches the next iteration only over an edge that sets the flag, so the loop cannot stop before the fixed point at a place that depends on map order; (lint.lastwins) a table keyed by a declaration name and filled in a loop merges with, or tests for, the entry already stored under the name; (lint.scopeentry) every function of linter/context that enters a subroutine scope (stores curMode from a parameter) calls the same per-subroutine reset methods as its siblings."
 	c.NotCovered = []string{"diagnostic text that embeds a value computed in map order", "equality of messages across runs beyond these shape arguments", "stack depth of descending recursion on pathologically deep trees"}
 	prog := c.Prog
 	u := newAstUniverse(prog)
@@ -38,6 +39,8 @@ func runC11(c *core.Ctx) {
 
 	// ---- optnil
 	checkOptNil(c, "lint.optnil", u, lfuncs)
+	checkFixpointLoops(c, lfuncs)
+	checkLastWriterWins(c, lfuncs)
 	c.Floor("lint.optnil", 20)
 
 	// ---- hoist
@@ -460,4 +463,196 @@ func carriedTestAndSet(fn *ssa.Function, l loopInfo) string {
 		}
 	}
 	return ""
+}
+
+// checkFixpointLoops (lint.fixpoint): `for changed { changed = false; … }` iterates to a fixed point only if every
+// update of the computed state raises the flag. When an update can reach the end of the iteration without the flag
+// being set, the loop may stop before the fixed point, and because such loops range over maps the stopping point -
+// and with it the linter's result - depends on Go's map iteration order. Decided per loop whose header branches on a
+// bool phi that receives the constant true somewhere in the body: every block of the body that stores through a
+// pointer or updates a map (the computed state lives on the heap) reaches the loop header only over an edge that
+// carries `true` into the flag.
+func checkFixpointLoops(c *core.Ctx, funcs []*ssa.Function) {
+	n := 0
+	for _, fn := range funcs {
+		k := 0
+		for _, l := range naturalLoops(fn) {
+			iff, ok := l.header.Instrs[len(l.header.Instrs)-1].(*ssa.If)
+			if !ok {
+				continue
+			}
+			flag, ok := iff.Cond.(*ssa.Phi)
+			if !ok || flag.Block() != l.header {
+				continue
+			}
+			if bt, ok := flag.Type().Underlying().(*types.Basic); !ok || bt.Kind() != types.Bool {
+				continue
+			}
+			// the phi web of the flag inside the loop and the edges that carry the constant true into it
+			web := map[*ssa.Phi]bool{flag: true}
+			trueEdge := map[[2]*ssa.BasicBlock]bool{}
+			for changed := true; changed; {
+				changed = false
+				for phi := range web {
+					for i, e := range phi.Edges {
+						pred := phi.Block().Preds[i]
+						if !l.body[pred] && pred != l.header {
+							continue
+						}
+						switch t := e.(type) {
+						case *ssa.Phi:
+							if !web[t] && (l.body[t.Block()] || t.Block() == l.header) {
+								web[t] = true
+								changed = true
+							}
+						case *ssa.Const:
+							if t.Value != nil && constant.BoolVal(t.Value) {
+								trueEdge[[2]*ssa.BasicBlock{pred, phi.Block()}] = true
+							}
+						}
+					}
+				}
+			}
+			if len(trueEdge) == 0 {
+				continue // not a raise-the-flag loop
+			}
+			k++
+			// heap updates in the body
+			for b := range l.body {
+				updates := false
+				for _, in := range b.Instrs {
+					switch t := in.(type) {
+					case *ssa.MapUpdate:
+						updates = true
+					case *ssa.Store:
+						root, path := chainOf(t.Addr)
+						if _, isAlloc := root.(*ssa.Alloc); isAlloc && len(path) == 0 {
+							continue
+						}
+						if _, isAlloc := root.(*ssa.Alloc); isAlloc {
+							if al := root.(*ssa.Alloc); !al.Heap {
+								continue
+							}
+						}
+						updates = true
+					}
+				}
+				if !updates {
+					continue
+				}
+				n++
+				key := fmt.Sprintf("%s|fixpoint loop#%d|%s", core.FnName(fn), k, b.Comment+fmt.Sprint(len(b.Preds)))
+				// can b reach the header without crossing a true-edge?
+				seen := map[*ssa.BasicBlock]bool{b: true}
+				stack := []*ssa.BasicBlock{b}
+				escapes := false
+				for len(stack) > 0 && !escapes {
+					x := stack[len(stack)-1]
+					stack = stack[:len(stack)-1]
+					for _, s := range x.Succs {
+						if trueEdge[[2]*ssa.BasicBlock{x, s}] {
+							continue
+						}
+						if s == l.header {
+							escapes = true
+							break
+						}
+						if l.body[s] && !seen[s] {
+							seen[s] = true
+							stack = append(stack, s)
+						}
+					}
+				}
+				var pos token.Pos
+				for _, in := range b.Instrs {
+					if in.Pos() != token.NoPos {
+						pos = in.Pos()
+					}
+				}
+				if escapes {
+					c.Report("lint.fixpoint", key, pos, fmt.Sprintf("%s updates the state its fixed-point loop computes and can finish the iteration without raising the loop's flag: the loop may stop before the fixed point, and since it ranges over a map where it stops depends on the map's iteration order - the same program gets different diagnostics from run to run", core.FnName(fn)))
+				} else {
+					c.Discharge("lint.fixpoint", key, pos, "every path from this update to the next iteration raises the flag")
+				}
+			}
+		}
+	}
+	c.Floor("lint.fixpoint", 1)
+}
+
+// checkLastWriterWins (lint.lastwins): a table filled in a loop over the declarations and keyed by a declaration's name
+// keeps, for a name declared twice, whatever the last declaration wrote - unless the value merges what was there
+// (it depends on a lookup of the same map) or a lookup of the map for that key guards the update (duplicate check).
+// Which declaration is last is exactly what permuting the declarations changes.
+func checkLastWriterWins(c *core.Ctx, funcs []*ssa.Function) {
+	n := 0
+	for _, fn := range funcs {
+		loops := naturalLoops(fn)
+		k := 0
+		for _, b := range fn.Blocks {
+			inLoop := false
+			for _, l := range loops {
+				if l.body[b] {
+					inLoop = true
+				}
+			}
+			if !inLoop {
+				continue
+			}
+			for _, in := range b.Instrs {
+				mu, ok := in.(*ssa.MapUpdate)
+				if !ok {
+					continue
+				}
+				// key: the Value of a Name / Ident of a declaration
+				isDeclName := false
+				for x := range core.BackSlice(mu.Key) {
+					if f := core.FieldOf(x); f != nil && f.Name() == "Value" && strings.HasSuffix(core.FieldOwner(x), "/ast.Ident") {
+						isDeclName = true
+					}
+				}
+				if !isDeclName {
+					continue
+				}
+				// a set (struct{} / constant members) is the same whoever writes last
+				if st, ok := mu.Value.Type().Underlying().(*types.Struct); ok && st.NumFields() == 0 {
+					continue
+				}
+				if _, isConst := mu.Value.(*ssa.Const); isConst {
+					continue
+				}
+				n++
+				k++
+				key := fmt.Sprintf("%s|map update#%d", core.FnName(fn), k)
+				merged, guarded := false, false
+				for x := range core.BackSlice(mu.Value) {
+					if lk, ok := x.(*ssa.Lookup); ok && sameBaseValue(lk.X, mu.Map) {
+						merged = true
+					}
+				}
+				// a lookup of the same map controls the update
+				cd := core.NewCtrlDeps(fn)
+				for _, e := range cd.Transitive(b) {
+					cond := core.BranchCond(e.From)
+					if cond == nil {
+						continue
+					}
+					for x := range core.BackSlice(cond) {
+						if lk, ok := x.(*ssa.Lookup); ok && (lk.X == mu.Map || sameBaseValue(lk.X, mu.Map)) {
+							guarded = true
+						}
+					}
+				}
+				switch {
+				case merged:
+					c.Discharge("lint.lastwins", key, in.Pos(), "the new entry is built from the entry already stored for the name")
+				case guarded:
+					c.Discharge("lint.lastwins", key, in.Pos(), "the update is controlled by a lookup of the same table (duplicate check)")
+				default:
+					c.Report("lint.lastwins", key, in.Pos(), fmt.Sprintf("%s stores an entry keyed by a declaration's name inside a loop, neither merging with nor testing for an entry already stored under that name: for a name declared twice the last declaration wins, so the result depends on the order of the declarations", core.FnName(fn)))
+				}
+			}
+		}
+	}
+	c.Floor("lint.lastwins", 1)
 }
